@@ -55,19 +55,19 @@ Definition d_same_name : xdoc :=
 
 Lemma same_local_name_witness :
   fins_doc d_base d_same_name /\
-  forall pf64 pf32, exists m m',
-    extract_all pf64 pf32 d_base = Ok m /\ extract_all pf64 pf32 d_same_name = Ok m' /\
+  forall pf64 pf32 fdiv, exists m m',
+    extract_all pf64 pf32 fdiv d_base = Ok m /\ extract_all pf64 pf32 fdiv d_same_name = Ok m' /\
     rt_guid (fm_root m) = B"real" /\ rt_guid (fm_root m') = B"fake".
 Proof.
-  split; [doc_tac|]. intros pf64 pf32. eexists. eexists.
+  split; [doc_tac|]. intros pf64 pf32 fdiv. eexists. eexists.
   split; [vm_compute; reflexivity|]. split; [vm_compute; reflexivity|]. split; reflexivity.
 Qed.
 
 Theorem C18_refuted_same_local_name_proof :
-  exists d d', fins_doc d d' /\ forall pf64 pf32, extract_all pf64 pf32 d' <> extract_all pf64 pf32 d.
+  exists d d', fins_doc d d' /\ forall pf64 pf32 fdiv, extract_all pf64 pf32 fdiv d' <> extract_all pf64 pf32 fdiv d.
 Proof.
   exists d_base, d_same_name. split; [apply same_local_name_witness|].
-  intros pf64 pf32. vm_compute. discriminate.
+  intros pf64 pf32 fdiv. vm_compute. discriminate.
 Qed.
 
 (** * 2. a foreign element (or a comment) as first child of a leaf: its text reads as absent *)
@@ -87,28 +87,28 @@ Definition d_bad_number_hidden : xdoc :=
 
 Lemma before_text_witness :
   fins_doc d_base d_before_text /\
-  forall pf64 pf32, exists m m' m'',
-    extract_all pf64 pf32 d_base = Ok m /\ extract_all pf64 pf32 d_before_text = Ok m' /\
-    extract_all pf64 pf32 d_comment_before_text = Ok m'' /\
+  forall pf64 pf32 fdiv, exists m m' m'',
+    extract_all pf64 pf32 fdiv d_base = Ok m /\ extract_all pf64 pf32 fdiv d_before_text = Ok m' /\
+    extract_all pf64 pf32 fdiv d_comment_before_text = Ok m'' /\
     rt_guid (fm_root m) = B"real" /\ rt_guid (fm_root m') = [] /\ rt_guid (fm_root m'') = [].
 Proof.
-  split; [doc_tac|]. intros pf64 pf32. eexists. eexists. eexists.
+  split; [doc_tac|]. intros pf64 pf32 fdiv. eexists. eexists. eexists.
   split; [vm_compute; reflexivity|]. split; [vm_compute; reflexivity|]. split; [vm_compute; reflexivity|].
   repeat split; reflexivity.
 Qed.
 
 Lemma before_text_number_witness :
   fins_doc d_bad_number d_bad_number_hidden /\
-  forall pf64 pf32,
-    extract_all pf64 pf32 d_bad_number = Err EInvalid /\
-    is_ok (extract_all pf64 pf32 d_bad_number_hidden) = true.
-Proof. split; [doc_tac|]. intros pf64 pf32. split; vm_compute; reflexivity. Qed.
+  forall pf64 pf32 fdiv,
+    extract_all pf64 pf32 fdiv d_bad_number = Err EInvalid /\
+    is_ok (extract_all pf64 pf32 fdiv d_bad_number_hidden) = true.
+Proof. split; [doc_tac|]. intros pf64 pf32 fdiv. split; vm_compute; reflexivity. Qed.
 
 Theorem C18_refuted_before_text_proof :
-  exists d d', fins_doc d d' /\ forall pf64 pf32, extract_all pf64 pf32 d' <> extract_all pf64 pf32 d.
+  exists d d', fins_doc d d' /\ forall pf64 pf32 fdiv, extract_all pf64 pf32 fdiv d' <> extract_all pf64 pf32 fdiv d.
 Proof.
   exists d_base, d_before_text. split; [apply before_text_witness|].
-  intros pf64 pf32. vm_compute. discriminate.
+  intros pf64 pf32 fdiv. vm_compute. discriminate.
 Qed.
 
 (** * 3. lookups by [descendants()] are captured by a foreign subtree earlier in document order *)
@@ -124,11 +124,11 @@ Definition d_data3d_captured : xdoc :=
 
 Lemma descendant_lookup_witness :
   fins_doc d_data3d d_data3d_captured /\
-  forall pf64 pf32, exists m m',
-    extract_all pf64 pf32 d_data3d = Ok m /\ extract_all pf64 pf32 d_data3d_captured = Ok m' /\
+  forall pf64 pf32 fdiv, exists m m',
+    extract_all pf64 pf32 fdiv d_data3d = Ok m /\ extract_all pf64 pf32 fdiv d_data3d_captured = Ok m' /\
     length (fm_pointclouds m) = 0%nat /\ length (fm_pointclouds m') = 1%nat.
 Proof.
-  split; [doc_tac|]. intros pf64 pf32. eexists. eexists.
+  split; [doc_tac|]. intros pf64 pf32 fdiv. eexists. eexists.
   split; [vm_compute; reflexivity|]. split; [vm_compute; reflexivity|]. split; reflexivity.
 Qed.
 
@@ -157,19 +157,19 @@ Definition first_intensity_min (m : file_meta) : option limit_value :=
 
 Lemma descendant_lookup_limits_witness :
   fins_doc d_limits d_limits_captured /\
-  forall pf64 pf32, exists m m',
-    extract_all pf64 pf32 d_limits = Ok m /\ extract_all pf64 pf32 d_limits_captured = Ok m' /\
+  forall pf64 pf32 fdiv, exists m m',
+    extract_all pf64 pf32 fdiv d_limits = Ok m /\ extract_all pf64 pf32 fdiv d_limits_captured = Ok m' /\
     first_intensity_min m = Some (LInteger 1) /\ first_intensity_min m' = Some (LInteger 7).
 Proof.
-  split; [doc_tac|]. intros pf64 pf32. eexists. eexists.
+  split; [doc_tac|]. intros pf64 pf32 fdiv. eexists. eexists.
   split; [vm_compute; reflexivity|]. split; [vm_compute; reflexivity|]. split; reflexivity.
 Qed.
 
 Theorem C18_refuted_descendant_lookup_proof :
-  exists d d', fins_doc d d' /\ forall pf64 pf32, extract_all pf64 pf32 d' <> extract_all pf64 pf32 d.
+  exists d d', fins_doc d d' /\ forall pf64 pf32 fdiv, extract_all pf64 pf32 fdiv d' <> extract_all pf64 pf32 fdiv d.
 Proof.
   exists d_data3d, d_data3d_captured. split; [apply descendant_lookup_witness|].
-  intros pf64 pf32. vm_compute. discriminate.
+  intros pf64 pf32 fdiv. vm_compute. discriminate.
 Qed.
 
 (** the inserted elements of witnesses 1 and 3 violate exactly the name condition of the
@@ -186,14 +186,27 @@ Example note_inert_but_in_front_of_text :
   ~ head_text_kept [XText (B"real")] [ext (B"note") [] []; XText (B"real")].
 Proof. split; [reflexivity|]. cbn. tauto. Qed.
 
-(** * The hypotheses of the positive theorem are satisfiable on a non-trivial input *)
+(** * The hypotheses of the positive theorem are satisfiable on a non-trivial input
+    (a document that declares the prefix [ext] at its root, so that a namespaced attribute can be
+    added without changing any scope) *)
+Definition sc_reg : list xnsdecl := [mkXNs (Some (B"ext")) EXT_NS; mkXNs None E57_NS].
+Definition stdr (local : xstr) (attrs : list xattr) (ch : list xnode) : xnode :=
+  XElem (mkXName (Some E57_NS) local) attrs sc_reg ch.
+Definition extr (local : xstr) (attrs : list xattr) (ch : list xnode) : xnode :=
+  XElem (mkXName (Some EXT_NS) local) attrs sc_reg ch.
+Definition root_reg (ch : list xnode) : xdoc := mkXDoc [stdr (B"e57Root") [tattr (B"Structure")] ch].
+Definition fmt_reg := stdr (B"formatName") [tattr (B"String")] [XText (B"ASTM E57 3D Imaging Data File")].
+Definition ver_reg := stdr (B"versionMajor") [tattr (B"Integer")] [XText (B"1")].
+
+Definition d_base_reg : xdoc :=
+  root_reg [fmt_reg; stdr (B"guid") [tattr (B"String")] [XText (B"real")]; ver_reg].
 Definition d_inert : xdoc :=
-  root_of [fmt_node;
-           ext (B"note") [pattr (B"kind") (B"x")] [ext (B"inner") [] [XText (B"guid")]];
-           std (B"guid") [tattr (B"String"); mkXAttr (mkXName (Some EXT_NS) (B"type")) (B"Integer")]
-             [XText (B"real"); ext (B"versionMinor") [] []];
-           ver_node;
-           ext (B"versionMinor") [] []].
+  root_reg [fmt_reg;
+            extr (B"note") [pattr (B"kind") (B"x")] [extr (B"inner") [] [XText (B"guid")]];
+            stdr (B"guid") [tattr (B"String"); mkXAttr (mkXName (Some EXT_NS) (B"type")) (B"Integer")]
+              [XText (B"real"); extr (B"versionMinor") [] []];
+            ver_reg;
+            extr (B"versionMinor") [] []].
 
 Ltac ins_flag_tac := flag_tac.
 Ltac ins_ae_tac := repeat first [apply ae_nil | apply ae_keep | apply ae_ins; [reflexivity|]].
@@ -206,11 +219,11 @@ with ins_list_tac :=
         | apply il_ins; [reflexivity | split; reflexivity | ins_list_tac] ].
 
 Example inert_insertion_example :
-  fins_inert_doc d_base d_inert /\
-  forall pf64 pf32, extract_all pf64 pf32 d_inert = extract_all pf64 pf32 d_base.
+  fins_inert_doc d_base_reg d_inert /\
+  forall pf64 pf32 fdiv, extract_all pf64 pf32 fdiv d_inert = extract_all pf64 pf32 fdiv d_base_reg.
 Proof.
   split.
   - unfold fins_inert_doc, ins_doc_gen; cbn [xd_children].
     repeat (constructor; [solve [ins_node_tac]|]); constructor.
-  - intros pf64 pf32. vm_compute. reflexivity.
+  - intros pf64 pf32 fdiv. vm_compute. reflexivity.
 Qed.
